@@ -46,6 +46,8 @@ var propConfigs = map[string]propConfig{
 	"C11": {Gen: true},
 	"C18": {Gen: true},
 	"C16": {},
+	"C06": {Gen: true, Bounded: []boundedCheck{{Name: "history-enumeration", Run: "TestBoundedC06", Module: true,
+		Bound: "every history over {Add, Write} of length <= 7 (gzip: <= 5) ended by Close, page sizes 1..3, three codecs, plus 7 longer shapes (page-size multiples followed by empty Writes, records pending at Close) at page sizes 1..4: footer row groups/NumRows/offsets/sizes parsed independently and compared with a list-of-batches model, every chunk walked page by page, records read back and compared, files with and without empty Writes compared byte for byte"}}},
 	"C13": {Gen: true, Bounded: []boundedCheck{{Name: "race-detector", Run: "TestBoundedC13", Module: true, Race: true,
 		Bound: "24 goroutines (8 per codec) each writing and reading back the same 40-record history concurrently after the pools were dirtied by other workloads, under the Go race detector; outputs compared byte for byte with the sequential run; one scheduler run, not a schedule enumeration"}}},
 	"C07": {Bounded: []boundedCheck{{Name: "rle-roundtrip", PkgRel: "internal/rle", File: "replay/rle_bounded_test.go.txt", Run: "TestBoundedC07",
